@@ -36,6 +36,8 @@ class AnalysisBroken(Exception):
 def tree_hash(repo=None):
     repo = repo or REPO
     h = hashlib.sha256()
+    if repo != "/repo":
+        h.update(repo.encode())   # the facts carry absolute paths: a tree at another place has its own cache entries
     roots = [os.path.join(repo, "src"), os.path.join(repo, "cmake")]
     files = [os.path.join(repo, "CMakeLists.txt")]
     for r in roots:
